@@ -7,8 +7,8 @@ import json, os, shutil, subprocess, sys, tempfile, time
 diff, rid, props = sys.argv[1], sys.argv[2], sys.argv[3:]
 D = tempfile.mkdtemp(prefix="refeval.", dir="/tmp")
 try:
-    subprocess.run(["git", "-C", "/repo", "worktree", "add", "--detach", D + "/wt", "HEAD", "-q"], check=True)
-    W = D + "/wt"
+    subprocess.run(["git", "-C", "/repo", "worktree", "add", "--detach", D + "/wt%d" % os.getpid(), "HEAD", "-q"], check=True)
+    W = D + "/wt%d" % os.getpid()
     ap = subprocess.run(["git", "-C", W, "apply", os.path.abspath(diff)], capture_output=True, text=True)
     if ap.returncode:      # the tree has moved on since the patch was written: three-way merge against its base blobs
         ap = subprocess.run(["git", "-C", W, "apply", "--3way", os.path.abspath(diff)], capture_output=True, text=True)
@@ -79,5 +79,5 @@ try:
             for l in r["lines"][:3]:
                 print("   ", p, l[:220])
 finally:
-    subprocess.run(["git", "-C", "/repo", "worktree", "remove", "--force", D + "/wt"], capture_output=True)
+    subprocess.run(["git", "-C", "/repo", "worktree", "remove", "--force", D + "/wt%d" % os.getpid()], capture_output=True)
     shutil.rmtree(D, ignore_errors=True)
